@@ -162,8 +162,10 @@ fn forbidden(idx: u64, rng: &mut Prng, col: &mut Collector) {
     match mode {
         0 => {
             // FOpts longer than 15 bytes (any payload kind)
-            let n = 16 + rng.below(5) as usize + if rng.chance(1, 10) { rng.below(200) as usize } else { 0 };
+            // (one in five: a length whose low octet looks legal, 256..271 / 512..527, with room for it)
+            let n = if rng.chance(1, 5) { 256 * rng.range(1, 3) as usize + rng.below(16) as usize } else { 16 + rng.below(5) as usize + if rng.chance(1, 10) { rng.below(200) as usize } else { 0 } };
             d.f_opts = rng.bytes(n);
+            buflen = n + 300;
             expect = Error::FOptsTooLong;
             name = "fopts_too_long";
         }
